@@ -11,6 +11,7 @@ import (
 
 	"pgregory.net/rapid"
 
+	"servitor/zverif/vgen"
 	"servitor/zverif/vsim"
 )
 
@@ -58,6 +59,30 @@ type World struct {
 	Posts  []WPost          `json:"posts"`
 	Actors []WActor         `json:"actors"`
 	Feeds  map[string][]int `json:"feeds,omitempty"` // feed name -> actor indices
+	// Hostile > 0: every name, handle, body and bio carries hostile tokens (chosen by this seed), and
+	// unfetchable URLs answer with hostile status lines / headers that end up quoted in error items.
+	Hostile int `json:"hostile,omitempty"`
+}
+
+func (w *World) hostile(i int) string {
+	if w.Hostile <= 0 {
+		return ""
+	}
+	toks := vgen.HostileTokens
+	return " " + toks[(w.Hostile*31+i*7)%len(toks)] + toks[(w.Hostile*17+i*13+5)%len(toks)]
+}
+
+var hostileResponses = []string{
+	"HTTP/1.1 \x1b[2J200 OK\r\nContent-Type: application/json\r\n\r\n{}",
+	"HTTP/1.1 200 OK\r\nContent-Type: text/\x1b]0;pwned\x07html\r\n\r\n{}",
+	"HTTP/1.1 200 OK\r\nContent-Type: \u009b31mapplication/evil\r\n\r\n{}",
+	"HTTP/1.1 302 Found\r\nLocation: https://%H0%/\x1b[31m%zz\r\n\r\n",
+	"HTTP/1.1 302 Found\r\nLocation: gemini\x1b[2J://x/\r\n\r\n",
+	"\x1b[2J\x1b[0;0H\x07\r\n\r\n",
+	"HTTP/1.1 404 \x1b[2J\r\n\r\n",
+	"HTTP/1.1 200 OK\r\nContent-Type: application/json\r\n\r\n{\"type\": \x1b[2J}",
+	"HTTP/1.1 200 OK\r\nContent-Type: application/json\r\n\r\n{\"type\":\"\u001b[2JNote\u009b\",\"id\":5}",
+	"HTTP/1.1 200 OK\r\nContent-Type: application/json\r\n\r\n{\"type\":\"Person\",\"name\":7,\"summary\":\"x\",\"mediaType\":\"text/\u001b[2Jx&#27;\"}",
 }
 
 func PostTok(i int) string  { return fmt.Sprintf("PTOK%dX", i) }
@@ -119,16 +144,20 @@ func paged(kind string, idURL string, items []any, per int, pageURL func(n int) 
 // Install serves the world on host 0 of the simulator under the prefix.
 func (w *World) Install(sim *vsim.Sim, prefix string) {
 	sim.ClearRoutes()
+	if w.Hostile > 0 {
+		// everything that is not served (missing parents, replies, activities, link targets) answers with hostile bytes
+		sim.Set(0, "*", &vsim.Route{Raw: hostileResponses[w.Hostile%len(hostileResponses)]})
+	}
 	set := func(u, doc string) {
 		path := u[strings.Index(u, prefix):]
 		sim.Set(0, path, vsim.JSON(doc))
 	}
 	for i, p := range w.Posts {
-		content := "<p>body of " + PostTok(i) + "</p>"
+		content := "<p>body of " + PostTok(i) + w.hostile(3*i) + "</p>"
 		for _, l := range p.Links {
 			content += fmt.Sprintf(`<p><a href="%s">link</a></p>`, w.LinkURL(prefix, l))
 		}
-		m := map[string]any{"id": w.PostURL(prefix, i), "type": p.Kind, "name": PostTok(i), "content": content, "published": "2023-06-01T00:00:00Z"}
+		m := map[string]any{"id": w.PostURL(prefix, i), "type": p.Kind, "name": PostTok(i) + w.hostile(3*i+1), "content": content, "published": "2023-06-01T00:00:00Z"}
 		switch p.Parent {
 		case -1:
 		case -2:
@@ -173,11 +202,11 @@ func (w *World) Install(sim *vsim.Sim, prefix string) {
 		set(w.PostURL(prefix, i), js(m))
 	}
 	for j, a := range w.Actors {
-		summary := "<p>bio of " + ActorTok(j) + "</p>"
+		summary := "<p>bio of " + ActorTok(j) + w.hostile(100+3*j) + "</p>"
 		for _, l := range a.Links {
 			summary += fmt.Sprintf(`<p><a href="%s">link</a></p>`, w.LinkURL(prefix, l))
 		}
-		m := map[string]any{"id": w.ActorURL(prefix, j), "type": "Person", "name": ActorTok(j), "preferredUsername": fmt.Sprintf("user%d", j), "summary": summary}
+		m := map[string]any{"id": w.ActorURL(prefix, j), "type": "Person", "name": ActorTok(j) + w.hostile(101+3*j), "preferredUsername": fmt.Sprintf("user%d", j) + strings.TrimSpace(w.hostile(102+3*j)), "summary": summary}
 		if a.Icon {
 			m["icon"] = map[string]any{"type": "Image", "url": ExternalURL(6000 + j), "mediaType": "image/png"}
 		}
